@@ -91,6 +91,8 @@ type chanV struct {
 	buf    []value
 	cap    int
 	closed bool
+	timer  bool // made by time.After: fires (once) when a select would otherwise block
+	fired  bool
 }
 
 type bad struct{}
